@@ -50,7 +50,7 @@ FORMULAS_AB = [
     "pow({a}, 2.0) + fmod({b}, 0.7) + fabs({a})", "acos(tanh({a})) + asin(tanh({b})) + atan({a})",
     "asinh({a}) + acosh(1.0 + abs({b})) + atanh(tanh({a}) / 2.0)", "gt({a}, {b}) + le({a}, {b}) * 2.0 + eq({a}, {b}) + neq({a}, 0.0)",
     "pi * {a} + tan({b} / 10.0)", "({a} + {b}) / 2.0", "{a} / {b}", "x * {a} + (1.0 - x) * {b}", "min({a}, 0.5) + max({b}, 0.25)",
-    ".-{a} * 2.0", "!gt({a}, 0.5) + 0.0", "gt({a}, 0.2) and lt({b}, 0.8)", "gt({a}, 0.7) or gt({b}, 0.7)",
+    ".-{a} * 2.0", "!gt({a}, 0.5) + 0.0", "{a} ^ {b}", "{a} ** {b} + 1.0", "pow({a}, {b})", "({a} * 1e200) ^ 2", "gt({a}, 0.2) and lt({b}, 0.8)", "gt({a}, 0.7) or gt({b}, 0.7)",
 ]
 FORMULAS_X = ["x", "x", "x", "x * 0.5", "1.0 - x", "gt(x, 0.5)", "exp(.-((x - 0.5) * (x - 0.5) * 8.0))", "abs(sin(x * 3.0))", "x ^ 2", "min(x, 0.5)",
               "x / (1.0 + abs(x))", "k * x"]
